@@ -14,8 +14,10 @@ import vf
 def load_specs():
     for f in sorted(glob.glob(os.path.join(vf.VERIF, 'contracts', 'c*.py'))):
         if os.path.basename(f) == 'common.py': continue
-        spec = importlib.util.spec_from_file_location(os.path.basename(f)[:-3], f)
-        spec.loader.exec_module(importlib.util.module_from_spec(spec))
+        name = os.path.basename(f)[:-3]
+        if name in sys.modules: continue
+        spec = importlib.util.spec_from_file_location(name, f); mod = importlib.util.module_from_spec(spec); sys.modules[name] = mod
+        spec.loader.exec_module(mod)
     for h in vf.POST: h()
 
 def known_findings():
@@ -73,7 +75,11 @@ def decide(R, check, prop, tier, kf, replay_dir):
         inputs = ob.get('trace_inputs') or {}
         verdict, txt = ('skipped', '')
         if check.native: verdict, txt = R.replay_native(check, inputs)
-        confirmed = verdict.startswith('confirmed')
+        def is_confirmed(verdict, txt, ob):
+            # the replay confirms THIS obligation only if its own postcondition is among those that fail natively on these inputs
+            if not verdict.startswith('confirmed'): return False
+            return ob['class'] != 'ensures' or ('ENSURES_FAIL ' + (ob.get('label') or ob['desc'])) in txt
+        confirmed = is_confirmed(verdict, txt, ob)
         used_inputs = inputs; mode_used = r.mode
         if not confirmed and r.mode == 'uf':
             # bounded cross-check with bit-precise narrow multipliers: either a concrete small counterexample, or
@@ -89,7 +95,7 @@ def decide(R, check, prop, tier, kf, replay_dir):
                 continue
             ob2 = nob[0]; used_inputs = ob2.get('trace_inputs') or {}; mode_used = narrow.mode
             if check.native: verdict, txt = R.replay_native(check, used_inputs)
-            confirmed = verdict.startswith('confirmed')
+            confirmed = is_confirmed(verdict, txt, ob)
             ob = dict(ob); ob['trace_tail'] = ob2.get('trace_tail')
         rec = dict(property=prop, check=check.id, function=r.fn, obligation=ob.get('label') or ob['desc'], obligation_name=ob['name'],
                    obligation_class=ob['class'], mode=mode_used, inputs=used_inputs, native_verdict=verdict, native_output=txt[-2000:],
